@@ -199,12 +199,13 @@ thread_local! {
 }
 
 fn ctx() -> Option<(Arc<Sim>, usize)> {
-    CTX.with(|c| c.borrow().clone())
+    // a thread that is tearing down its thread-locals is, by definition, outside any simulation
+    CTX.try_with(|c| c.borrow().clone()).ok().flatten()
 }
 
 /// True when the calling OS thread is a simulated thread of a live simulation.
 pub fn in_sim() -> bool {
-    CTX.with(|c| c.borrow().is_some())
+    CTX.try_with(|c| c.borrow().is_some()).unwrap_or(false)
 }
 
 /// Simulated thread id of the caller (0 = the scenario's main thread).
